@@ -254,9 +254,11 @@ def annotate_fn(text, ann, clauses, fname):
             ins.append((lob, 1, inv + '\n        '))
         for key, pos in (('body_start', lob + 1), ('body_end', lcb), ('after', lcb + 1)):
             if spec.get(key):
-                w = W('hint', spec[key])
-                if w:
-                    ins.append((pos, 0, '\n' + w + '\n'))
+                vals = spec[key] if isinstance(spec[key], (list, tuple)) else [spec[key]]
+                for raw in reversed(vals):
+                    w = W('hint', raw)
+                    if w:
+                        ins.append((pos, 0, '\n' + w + '\n'))
     rets = [mo.start() for mo in re.finditer(r'\breturn\b', m[ob:cb])]
     fingerprint['returns'] = len(rets)
     for idx, s in (ann.get('before_return') or {}).items():
